@@ -40,8 +40,22 @@ package dbdiff
 //@ ensures[borrow] err == nil ==> ref(d.Bytes) == ref(b) && off(d.Bytes) == off(b) + 1 && len(d.Bytes) == len(b) - 1
 //@ ensures[err] err != nil ==> d.Op == old(d.Op) && d.Bytes == old(d.Bytes)
 
+// Convert compiles exactly the entry's own argument, once, and keeps the compiler's output as the entry's records;
+// the operation and the argument stay as parsed, and a line the compiler rejects leaves the records as they were.
+// (The line compiler itself -- DecodeLn + MarshalMap -- has its contracts in package dnsdata; here it is a trusted
+// stub that records what it was given and what it returned.)
+//@ ghostvar convIn slice
+//@ ghostvar convOut slice
+//@ ghostvar nconv nat
+//@ extern github.com/facebookincubator/dns/dnsrocks/dnsdata Codec.ConvertLn
+//@ updates convIn, convOut, nconv
+//@ ensures nconv == old(nconv) + 1 && convIn == text && convOut == result0
+//@ ensures err != nil ==> result0 == nil
 //@ func Entry.Convert
-//@ trusted
 //@ modifies d
-//@ requires d != nil && (linegen[ref(d.Bytes)] == 0 || linegen[ref(d.Bytes)] == scangen)
-//@ ensures d.Op == old(d.Op)
+//@ updates convIn, convOut, nconv
+//@ requires d != nil && codec != nil && (linegen[ref(d.Bytes)] == 0 || linegen[ref(d.Bytes)] == scangen)
+//@ ensures[kept] d.Op == old(d.Op) && d.Bytes == old(d.Bytes)
+//@ ensures[once] nconv == old(nconv) + 1 && convIn == old(d.Bytes)
+//@ ensures[records] err == nil ==> d.Records == convOut
+//@ ensures[fail] err != nil ==> d.Records == old(d.Records)
